@@ -119,6 +119,10 @@ def gen_program(rng, silent):
             lines.append("@ end { puts(\"END \", NP, \" \", cnt, \" \", total, \" \", PL == null); }")
         else:
             lines.append("@ end { eprintln(\"END {} {} {}\", NP, cnt, total); }")
+    if rng.random() < 0.3:
+        # the program text ends in an expression statement with a value (nothing echoes it in filter mode, whichever way
+        # the text is handed to the interpreter)
+        lines.append(rng.choice(["cnt + 41;", "\"tail\"", "total * 2 + 7"]))
     return "\n".join(lines) + "\n", model, has_end
 
 
@@ -195,7 +199,7 @@ def run(chk):
     chk.assumptions = ["programs never raise a runtime error inside a filter (that ends the stream loop by design) and print to stdout only "
                        "with -s (without -s stdout is the pcap stream)"]
     chk.floor = 300
-    chk.rule += '; plus streams of 4200-9000 packets with actions that declare locals, frames larger than the stdout buffer with line-feed bytes, non-boolean patterns, assignments to the record fields of $0 between selecting filters'
+    chk.rule += '; plus streams of 4200-9000 packets with actions that declare locals, frames larger than the stdout buffer with line-feed bytes, non-boolean patterns, assignments to the record fields of $0 between selecting filters; every third program handed over with -c instead of a file, program texts ending in an expression statement with a value'
     work = core.scratch_dir()
     try:
         n = 500 if quick else 15000
@@ -215,8 +219,9 @@ def run(chk):
                 f.write(src)
             with open(inp, "wb") as f:
                 f.write(data)
+            as_cmd = (t % 3 == 1)     # the same text handed over with -c
             with open(inp, "rb") as fi:
-                rr = core.run_binary((["-s"] if silent else []) + [path], stdin_file=fi, release=(t % 2 == 1), timeout=60)
+                rr = core.run_binary((["-s"] if silent else []) + (["-c", src] if as_cmd else [path]), stdin_file=fi, release=(t % 2 == 1), timeout=60)
             if rr["timeout"]:
                 chk.inconc("timeout")
                 continue
@@ -226,7 +231,7 @@ def run(chk):
                 continue
             exp_out, exp_err, exp_recs = simulate(model, has_end, recs, silent)
             kinds = tuple(sorted(set(m[0] for m in model)))
-            chk.observed((kinds, silent, has_end, min(len(recs), 9), len(exp_recs) > 0))
+            chk.observed((kinds, silent, has_end, min(len(recs), 9), len(exp_recs) > 0, as_cmd))
             if t % 97 == 0:
                 chk.sample({"program": src, "packets_in": len(recs), "-s": silent, "records_expected_out": len(exp_recs),
                             "stderr": rr["err"].decode("utf-8", "replace")[:80]})
